@@ -286,5 +286,9 @@ def oracles(trial, calls):
         if common and max(common) not in rets:
             what = (f"everything was delivered and recv() called {sum(1 for op in trial['ops'] if op['k'] == 'c')} times, but id {max(common)} (published by every synchronised source "
                     f"{sync}) was never returned; returned ids {rets}; ephemeral sources {[i for i, s in enumerate(srcs) if s['eph']]}")
-            (v['C05'] if any(s['eph'] for s in srcs) else v['C06']).append(('sync-stream-held-up', what))
+            # known finding: an ephemeral all-topics source whose upstream closed and came back with FEWER topics - the late heartbeat of the old incarnation's last block
+            # (arriving after that block was returned) leaves a template with the old topic list, CLOSE resets only the id, the new incarnation's block 0 is written into it
+            fewer = any(s['eph'] and len({sd for sd, _, _ in trial['published'][i]}) > 1 and
+                        any(set(T2) < set(T1) for (sd1, _, T1) in trial['published'][i] for (sd2, _, T2) in trial['published'][i] if sd1 != sd2) for i, s in enumerate(srcs))
+            (v['C05'] if any(s['eph'] for s in srcs) else v['C06']).append(('sync-stream-held-up' + (':eph-restart-fewer-topics' if fewer else ''), what))
     return v
